@@ -53,6 +53,11 @@ def case_for(seed, stream, idx, tier):
         opts = gen.rand_opts(r)
         if r.random() < 0.6:
             opts.pop("fast_match", None)
+    elif stream == "nsm":
+        # namespaced pairs compared with the model: the step name of a Clark-notation tag is the prefix the working
+        # copy uses for its URI (the left root's prefix if it declares the URI, else the right root's)
+        L, R = gen.ns_pair(r, maxn)
+        opts = gen.rand_opts(r)
     elif stream == "near":
         # C03, converse direction with a minimal difference: a copy with exactly one primitive change
         L = gen.dup_heavy_tree(r, maxn) if r.random() < 0.4 else gen.rand_tree(r, maxn)
@@ -282,6 +287,15 @@ def run_cases(seed, lo, hi, extra):
     for idx in range(lo, hi):
         L, R, opts = case_for(seed, stream, idx, tier)
         c = {"idx": idx, "stream": stream, "L": L, "R": R, "opts": opts}
+        nsq = ""
+        if getattr(L, "nsmap", None) or getattr(R, "nsmap", None):
+            u2p = {}
+            for pre, uri in (L.nsmap or {}).items():
+                u2p.setdefault(uri, pre)
+            for pre, uri in (R.nsmap or {}).items():
+                u2p.setdefault(uri, pre)
+            nsq = "ns\t" + "|".join(f"{u}={p_}" for u, p_ in sorted(u2p.items())) + "\t"
+        c["nsq"] = nsq
         cases.append(c)
         try:
             rd = real.RealDiff(L, R, opts)
@@ -289,7 +303,9 @@ def run_cases(seed, lo, hi, extra):
             sim = rd.sim_table()
             c["sim"] = sim
             c["match"] = rd.match()
-            c["script"] = rd.script()
+            c["script_all"] = rd.script()
+            # the namespace prologue (InsertNamespace / DeleteNamespace) is outside the model
+            c["script"] = [a for a in c["script_all"] if type(a).__name__ not in ("InsertNamespace", "DeleteNamespace")]
             c["final"] = rd.final_left()
             c["diff_exc"] = None
         except Exception as e:  # the real differ raised
@@ -297,17 +313,18 @@ def run_cases(seed, lo, hi, extra):
             c["script"] = None
         cfg = xt.enc_cfg(opts)
         lt, rt = xt.enc_tree(L), xt.enc_tree(R)
-        u1_requests(c, reqs)
+        if not nsq:
+            u1_requests(c, reqs)
         c["req0"] = len(reqs)
         if c["diff_exc"] is None:
             ss = xt.enc_script(c["script"])
-            c["patch"] = real.real_patch(c["script"], L)
-            reqs.append(f"diff\t{cfg}\t{lt}\t{rt}\t{sim}\t{FRESH}")
-            reqs.append(f"patch\tshipped\t{FRESH}\t{lt}\t{ss}")
-            reqs.append(f"replay\t{FRESH}\t{lt}\t{ss}")
+            c["patch"] = real.real_patch(c["script_all"], L)
+            reqs.append(f"{nsq}diff\t{cfg}\t{lt}\t{rt}\t{sim}\t{FRESH}")
+            reqs.append(f"{nsq}patch\tshipped\t{FRESH}\t{lt}\t{ss}")
+            reqs.append(f"{nsq}replay\t{FRESH}\t{lt}\t{ss}")
         else:
             # still ask the model what it thinks
-            reqs.append(f"diff\t{cfg}\t{lt}\t{rt}\t\t{FRESH}")
+            reqs.append(f"{nsq}diff\t{cfg}\t{lt}\t{rt}\t\t{FRESH}")
     resp = core.run_driver(reqs)
     # second pass: where the model's matching differs from the real one, U5 (script generation
     # from the *real* matching) is asked separately; otherwise it coincides with the end-to-end answer
@@ -320,13 +337,14 @@ def run_cases(seed, lo, hi, extra):
             if m_match.strip() != real_match.strip():
                 ms = " ".join(f"{a}:{b}" for a, b in c["match"])
                 c["req_u5"] = len(second)
-                second.append(f"script\t{xt.enc_cfg(c['opts'])}\t{xt.enc_tree(c['L'])}\t{xt.enc_tree(c['R'])}\t{ms}\t{FRESH}")
+                second.append(f"{c['nsq']}script\t{xt.enc_cfg(c['opts'])}\t{xt.enc_tree(c['L'])}\t{xt.enc_tree(c['R'])}\t{ms}\t{FRESH}")
     resp2 = core.run_driver(second)
     for c in cases:
         st.evaluations += 1
         L, R, opts = c["L"], c["R"], c["opts"]
         desc = {"stream": c["stream"], "idx": c["idx"], "left": xt.to_xml(L), "right": xt.to_xml(R), "options": repr(opts)}
-        u1_compare(c, resp, st, desc)
+        if not c["nsq"]:
+            u1_compare(c, resp, st, desc)
         if c["diff_exc"] is not None:
             st.failures.append({"prop": "C01", "sig": f"C01/diff-raises/{c['diff_exc']}", **desc})
             st.count("diff_raised")
